@@ -84,6 +84,7 @@ type VerifMgrState struct {
 	ActiveTok         [16]byte
 	Since, PPC        uint32
 	Closed            bool
+	AdvertisedLimit   uint64
 }
 
 type VerifMgr struct {
@@ -181,7 +182,7 @@ func (v *VerifMgr) IsActiveStatelessResetToken(tok [16]byte) bool {
 	return v.m.IsActiveStatelessResetToken(tok)
 }
 
-// SetConnectionIDLimit calls the uQUIC compatibility shim of u_conn_id_manager.go.
+// SetConnectionIDLimit: u_conn_id_manager.go, the limit a spec-driven client advertised.
 func (v *VerifMgr) SetConnectionIDLimit(n uint64) { v.m.SetConnectionIDLimit(n) }
 
 func (v *VerifMgr) State() VerifMgrState {
@@ -195,6 +196,7 @@ func (v *VerifMgr) State() VerifMgrState {
 		Since:             h.packetsSinceLastChange,
 		PPC:               h.packetsPerConnectionID,
 		Closed:            h.closed,
+		AdvertisedLimit:   h.advertisedLimit,
 	}
 	if h.activeStatelessResetToken != nil {
 		s.HasActiveTok = true
@@ -269,10 +271,35 @@ type VerifGen struct {
 	cg     *verifCIDGen
 	sr     *statelessResetter
 	Events []VerifGenEvent
+	// base: the harness' times are offsets from a point one hour in the future of the real
+	// monotonic clock, so that "not yet expired" also holds with respect to monotime.Now()
+	// (a generator that consults the real clock must not see the test's expiries as past).
+	base int64
+	// rt: if set, the callbacks are also forwarded to a real packetHandlerMap (connection 1)
+	rt *VerifRouting
+}
+
+// VerifNewGenRouted: like VerifNewGen, and the generator drives a real packetHandlerMap in which
+// the transport registered the connection's first IDs (server: AddWithConnID(client's
+// destination ID, source ID); client: Add(source ID)).
+func VerifNewGenRouted(initial []byte, initialClientDest []byte, hasClientDest bool, connIDLen int) (*VerifGen, *VerifRouting) {
+	rt := VerifNewRouting()
+	if hasClientDest {
+		rt.AddWithConnID(initialClientDest, initial, 1)
+	} else {
+		rt.Add(initial, 1)
+	}
+	v := verifNewGen(initial, initialClientDest, hasClientDest, connIDLen, rt)
+	return v, rt
 }
 
 func VerifNewGen(initial []byte, initialClientDest []byte, hasClientDest bool, connIDLen int) *VerifGen {
-	v := &VerifGen{cg: &verifCIDGen{l: connIDLen}}
+	return verifNewGen(initial, initialClientDest, hasClientDest, connIDLen, nil)
+}
+
+func verifNewGen(initial []byte, initialClientDest []byte, hasClientDest bool, connIDLen int, rt *VerifRouting) *VerifGen {
+	v := &VerifGen{cg: &verifCIDGen{l: connIDLen}, rt: rt}
+	v.base = int64(monotime.Now()) + int64(time.Hour)
 	v.sr = newStatelessResetter(&StatelessResetKey{1, 2, 3, 4})
 	var icd *protocol.ConnectionID
 	if hasClientDest {
@@ -287,9 +314,15 @@ func VerifNewGen(initial []byte, initialClientDest []byte, hasClientDest bool, c
 		connRunnerCallbacks{
 			AddConnectionID: func(c protocol.ConnectionID) {
 				v.Events = append(v.Events, VerifGenEvent{Kind: 0, CID: append([]byte{}, c.Bytes()...)})
+				if v.rt != nil {
+					v.rt.m.Add(c, v.rt.conn(1))
+				}
 			},
 			RemoveConnectionID: func(c protocol.ConnectionID) {
 				v.Events = append(v.Events, VerifGenEvent{Kind: 1, CID: append([]byte{}, c.Bytes()...)})
+				if v.rt != nil {
+					v.rt.m.Remove(c)
+				}
 			},
 			ReplaceWithClosed: func(ids []protocol.ConnectionID, b []byte, d time.Duration) {
 				e := VerifGenEvent{Kind: 3, Local: b != nil, Aux: int64(d)}
@@ -297,6 +330,9 @@ func VerifNewGen(initial []byte, initialClientDest []byte, hasClientDest bool, c
 					e.IDs = append(e.IDs, append([]byte{}, c.Bytes()...))
 				}
 				v.Events = append(v.Events, e)
+				if v.rt != nil {
+					v.rt.m.ReplaceWithClosed(ids, b, d)
+				}
 			},
 		},
 		func(f wire.Frame) {
@@ -342,18 +378,18 @@ func (v *VerifGen) SetMaxActiveConnIDs(limit uint64) (cls int) {
 
 func (v *VerifGen) Retire(seq uint64, sentWith []byte, expiry int64) (cls int) {
 	defer v.guard(&cls)
-	return verifErrClass(v.g.Retire(seq, protocol.ParseConnectionID(sentWith), monotime.Time(expiry)))
+	return verifErrClass(v.g.Retire(seq, protocol.ParseConnectionID(sentWith), monotime.Time(v.base+expiry)))
 }
 
 func (v *VerifGen) SetHandshakeComplete(expiry int64) (cls int) {
 	defer v.guard(&cls)
-	v.g.SetHandshakeComplete(monotime.Time(expiry))
+	v.g.SetHandshakeComplete(monotime.Time(v.base + expiry))
 	return VerifOK
 }
 
 func (v *VerifGen) RemoveRetiredConnIDs(now int64) (cls int) {
 	defer v.guard(&cls)
-	v.g.RemoveRetiredConnIDs(monotime.Time(now))
+	v.g.RemoveRetiredConnIDs(monotime.Time(v.base + now))
 	return VerifOK
 }
 
@@ -384,7 +420,7 @@ func (v *VerifGen) State() VerifGenState {
 		s.ActiveCIDs = append(s.ActiveCIDs, append([]byte{}, g.activeSrcConnIDs[seq].Bytes()...))
 	}
 	for _, c := range g.connIDsToRetire {
-		s.RetireTimes = append(s.RetireTimes, int64(c.t))
+		s.RetireTimes = append(s.RetireTimes, int64(c.t)-v.base)
 		s.RetireCIDs = append(s.RetireCIDs, append([]byte{}, c.connID.Bytes()...))
 	}
 	if g.initialClientDestConnID != nil {
@@ -448,14 +484,14 @@ func (v *VerifRouting) AddWithConnID(clientDest, newID []byte, n int) bool {
 
 func (v *VerifRouting) Remove(cid []byte) { v.m.Remove(protocol.ParseConnectionID(cid)) }
 
-func (v *VerifRouting) ReplaceWithClosed(ids [][]byte, local bool, expiry int64) {
+func (v *VerifRouting) ReplaceWithClosed(ids [][]byte, local bool, expiry int64, closePacketLen int) {
 	cs := make([]protocol.ConnectionID, len(ids))
 	for i, b := range ids {
 		cs[i] = protocol.ParseConnectionID(b)
 	}
 	var pkt []byte
 	if local {
-		pkt = []byte{0x1c, 0, 0, 0}
+		pkt = make([]byte, closePacketLen) // non-nil even if empty
 	}
 	v.m.ReplaceWithClosed(cs, pkt, time.Duration(expiry))
 	// number the local stand-ins in creation order (all IDs of one call share one)
@@ -502,11 +538,11 @@ func (v *VerifRouting) Lookup(cid []byte) (kind, ref int) {
 // Deliver hands one packet to whatever the map routes cid to, exactly as
 // Transport.handlePacket does after the lookup, and reports how many CONNECTION_CLOSE
 // retransmissions were queued by it.
-func (v *VerifRouting) Deliver(cid []byte) (kind, ref, sent int) {
+func (v *VerifRouting) Deliver(cid []byte, size int) (kind, ref, sent int) {
 	h, ok := v.m.Get(protocol.ParseConnectionID(cid))
 	kind, ref = v.classify(h, ok)
 	if ok {
-		h.handlePacket(receivedPacket{})
+		h.handlePacket(receivedPacket{data: make([]byte, size)})
 	}
 	for {
 		select {
